@@ -160,6 +160,36 @@ def boundary_obls(prefix):
     return out
 
 
+AP_FUNCS = ["ldb_versions_apply", "builder_init", "builder_apply", "builder_save_to", "builder_maybe_add_file", "builder_clear",
+            "ldb_versions_finalize", "ldb_versions_write_snapshot", "ldb_versions_append_version", "ldb_version_create",
+            "ldb_version_destroy", "ldb_edit_set_log_number", "ldb_edit_set_prev_log_number", "ldb_edit_set_next_file",
+            "ldb_edit_set_last_sequence", "ldb_edit_add_file", "ldb_filemeta_clone", "ldb_filemeta_ref", "ldb_filemeta_unref"]
+
+
+def apply_obls(prefix):
+    out = []
+    cfg = [(1, 0, 0, "quick"), (1, 1, 0, "quick"), (1, 2, 0, "quick"), (0, 0, 0, "quick"), (0, 1, 0, "quick"), (0, 2, 0, "quick"),
+           (1, 0, 1, "quick")]
+    for first, shape, cf, tier in cfg:
+        known = "F5-apply-create-failure-null-destroy" if cf else None
+        name = "%s.versions-apply-%s-shape%d%s" % (prefix, "first" if first else "open", shape, "-create-fails-finding" if cf else "")
+        out.append(Obl(name, "vset/apply.c",
+                       real=["dbformat.c", "util/comparator.c", "util/buffer.c", "util/slice.c", "util/options.c", "util/rbt.c"],
+                       include_real=["version_set.c", "version_edit.c", "util/vector.c"], kit=KIT,
+                       defs={"VP_FIRST": first, "VP_SHAPE": shape, "VP_CREATE_FAILS": cf, "VP_SLAB": 32, "VP_VEC_CAP": 4}, unwind=9,
+                       unwindset={"memcmp.0": 10, "memcpy.0": 28, "strlen.0": 28, "vp_realloc_ptrs.0": 5},
+                       tier=tier, timeout=600, functions=AP_FUNCS, known=known, object_bits=10,
+                       desc=("FINDING F5: ldb_truncfile_create fails -> failure path hands NULL to ldb_wfile_destroy" if cf else
+                             "ldb_versions_apply ordering monitor (%s): edit completed with the set's counters; %sedit record, THEN sync%s with the mutex "
+                             "released; nothing installed before; install + log numbers only on success; on failure nothing installed%s"
+                             % ("first call" if first else "MANIFEST open", "new MANIFEST named by manifest_file_number, snapshot, THEN " if first else "",
+                                ", THEN set_current_file" if first else "",
+                                ", new MANIFEST closed+removed, descriptor_log/file reset" if first else ", open MANIFEST kept")),
+                       bounds="base shape %d (0: empty, 1: flush onto one file, 2: compaction delete+add), all 64-bit counters symbolic, every step "
+                              "below fails or not with any error code%s" % (shape, "" if cf else "; excluded: ldb_truncfile_create failure (finding F5)")))
+    return out
+
+
 VL_FUNCS = ["ldb_versions_add_files", "ldb_version_unref", "ldb_version_ref", "ldb_version_destroy", "ldb_version_clear",
             "ldb_versions_append_version", "ldb_version_create", "ldb_version_init", "ldb_vector_push", "ldb_vector_clear"]
 VL_OPS = {0: ("add-files", "ldb_versions_add_files: live == exactly the file numbers of every version in the list, every level 0..6"),
@@ -188,5 +218,5 @@ def versionlist_obls(prefix):
     return out
 
 
-OBLIGATIONS = overlap_obls("e") + baselevel_obls("d") + boundary_obls("f") + versionlist_obls("b")
+OBLIGATIONS = overlap_obls("e") + baselevel_obls("d") + boundary_obls("f") + apply_obls("d") + versionlist_obls("b")
 META = {}
